@@ -66,6 +66,7 @@ def op_strategy(depth=2):
         nm.map(lambda n: T("save_state", n)), nm.map(lambda n: T("restore_state", n)),
         nm.map(lambda n: T("restore_state", n)), nm.map(lambda n: T("delete_state", n)),
     )
+    state = st.one_of(state, state, state, state, state, st.just({"op": "other", "args": []}))
     if depth <= 0:
         return st.one_of(geo, geo, state, state)
     inner = op_strategy(depth - 1)
@@ -146,6 +147,15 @@ class Runner:
             m.cur, m.stack = entry.cur, entry.stack
             self.compare(f"after leaving {op['kind']} context"
                          f"{' (body raised)' if op['raise'] else ''}")
+            return
+        if name == "other":
+            from vf.statehist import other_builder_activity
+            o = other_builder_activity()
+            for nm in NAMES:               # same state names on the other transformer
+                o.transform.save_state(nm)
+            o.transform.rotate(33.0, "x")
+            self.cl.add("other_transformer_active")
+            self.compare("after another builder's transformer was used")
             return
         args = op["args"]
         pivot_check = None
